@@ -82,8 +82,8 @@ def escapeValue (b : Byte) : BitVec 32 :=
   | some v => BitVec.ofNat 32 v
   | none => b.signExtend 32
 
-/-- `for (; isxdigit(*p); p++) c = (c << 4) + from_hex(*p);` (`int c`; a left shift that overflows wraps,
-    as on every compiler chibicc is built with) -/
+/-- `for (; isxdigit(*p); p++) c = ((unsigned)c << 4) + from_hex(*p);` (`int c`; the shift is done in `unsigned`,
+    the sum is converted back to `int`: arithmetic modulo 2^32) -/
 def hexLoop (p : List Byte) : Nat → Nat → BitVec 32 → BitVec 32 × Nat
   | 0, i, c => (c, i)
   | fuel + 1, i, c =>
@@ -189,6 +189,7 @@ def findQuote (p : List Byte) : Nat → Nat → Option Nat
 def readCharLiteral (p : List Byte) (q : Nat) : Except LitErr (BitVec 32 × Nat) := do
   let i := q + 1
   if byteAt p i = 0#8 then throw .unclosedChar
+  if byteAt p i = 92#8 ∧ byteAt p (i + 1) = 0#8 then throw .unclosedChar
   let (c, j) ←
     if byteAt p i = 92#8 then do
       let (c, n) ← readEscapedChar (p.drop (i + 1))
